@@ -135,6 +135,14 @@ theorem c07_store_roundtrip {L} [DecidableEq L] (loc : Name → L) (σ σ' : KV 
   rw [hm.2]
   simp [KV.set]
 
+-- put one chunk into an empty NPY store and read it back; a neighbouring chunk stays absent
+example : (match kvPut (npyLoc "/d".toList) (fun _ => none) "x".toList (natSlices [0] [2])
+      ⟨"<f4".toList, [2], [1, 2, 3, 4, 5, 6, 7, 8]⟩ false with
+    | .ok σ => (kvGet (npyLoc "/d".toList) σ "x".toList (natSlices [0] [2]) "<f4".toList false,
+                kvGet (npyLoc "/d".toList) σ "x".toList (natSlices [2] [2]) "<f4".toList false)
+    | .error e => (.error e, .error e))
+    = (.ok ⟨"<f4".toList, [2], [1, 2, 3, 4, 5, 6, 7, 8]⟩, .error .chunkNotFound) := by decide
+
 /-- **other chunks are untouched**: with an injective location map, a put under (array, starts)
     does not change what any other (array', starts') reads -/
 theorem c07_store_put_other {L} [DecidableEq L] (loc : Name → L)
@@ -320,6 +328,8 @@ theorem c07_prune_kept_iff_overlap (chunks : List Nat) (start stop : Nat) (hs : 
       (start < chunkHi chunks i ∧ chunkLo chunks i < stop) :=
   pruneCounts_iff chunks start stop hs i hi
 
+example : pruneCounts [2, 2, 2] 3 5 = (1, 3) ∧ chunkLo [2, 2, 2] 1 = 2 ∧ chunkHi [2, 2, 2] 1 = 4 := by decide
+
 /-- **no chunk boundary is altered**: the kept chunks, placed at the returned offset, have the
     store coordinates they had in the full array -/
 theorem c07_prune_boundaries_unchanged (chunks : List Nat) (start stop : Nat) :
@@ -327,6 +337,9 @@ theorem c07_prune_boundaries_unchanged (chunks : List Nat) (start stop : Nat) :
       = ((chunkBounds 0 chunks).take (pruneCounts chunks start stop).2).drop
           (pruneCounts chunks start stop).1 :=
   pruneAxisRaw_bounds chunks start stop
+
+example : chunkBounds (pruneAxisRaw [2, 2, 2] 3 5).offset (pruneAxisRaw [2, 2, 2] 3 5).chunks = [(2, 4), (4, 6)] := by
+  decide
 
 /-- a non-empty range always keeps at least one stored chunk; the zero-size placeholder chunk
     `(0,)` ("dask doesn't allow empty chunk lists") can only arise from an empty range -/
